@@ -430,6 +430,11 @@ func init() {
 		if flip {
 			even = Not(even)
 		}
+		if v, ok := in.knownBool("evenY(" + shortKey(k) + ")"); ok {
+			// parity already decided on this path: emit the constant so that syntactically different but equal streams
+			// (a caller writing the literal 0x02) are recognised as the same hash input
+			even = BoolConst(v != flip)
+		}
 		out := append([]*Term{Ite(even, BVConst64(2, 8), BVConst64(3, 8))}, xb...)
 		return tup(in.byteSlice(out), nilErr)
 	})
